@@ -4,53 +4,65 @@ Public API
 ----------
     class Call(dict)
     trace_ops(flavour, cache, ext, ops, env=None, timeout=120, link_to=False, want_reads=False,
-              inject=None, pin=None, cwd=None, logdir=None) -> dict
-    kill_sweep(flavour, make_state, ops, target, select=None, after=None, env=None, jobs=8,
-               torn=None, torn_select=None, retries=3, timeout=120, link_to=False, info=None) -> list[dict]
+              inject=None, pin=None, cwd=None, logdir=None, warmup=None, only=None) -> dict
+    kill_sweep(flavour, make_state, ops, target, select=None, after=None, env=None, jobs=8, torn=None,
+               torn_select=None, retries=3, timeout=120, link_to=False, info=None, warmup="auto",
+               isolate=True) -> list[dict]
     fault_sweep(flavour, make_state, ops, target, errnos=("EIO","ENOSPC","EACCES","EMFILE"), select=None,
-                after=None, env=None, jobs=8, retries=3, timeout=120, link_to=False, info=None) -> list[dict]
+                after=None, env=None, jobs=8, retries=3, timeout=120, link_to=False, info=None, warmup="auto",
+                isolate=True) -> list[dict]
     outside_mutations(calls, allow_ext=True) -> list[Call]
     torn_lengths(n, torn="all") -> list[int]
-    signature(call) -> tuple          (run-independent identity of a call: temp names replaced by a placeholder)
-    cleanup(result_or_path)           (remove the strace log directory of a trace_ops result)
-    dump_after(cache, ext, *_)        (ready-made `after` callback: ops.dump_real)
+    signature(call) -> tuple          run-independent identity of a call (temp names replaced by a placeholder)
+    brief(call) -> str                one-line rendering
+    cleanup(result_or_path)           remove the strace log directory of a trace_ops result
+    dump_after(cache, ext, *_)        ready-made `after` callback: ops.dump_real
+    default_warmup(flavour)           the warm-up ops used by the sweeps (warmup="auto")
+
+Call keys: idx tid role name args ret errno paths fdpath flags data buf count offset mutating maycreate maytruncate
+thread_ord injected line retpath srcpath target cmd shared_write rawpaths (see _Parser.build).
 
 How a run is traced
 -------------------
-The harness is started *untraced* (Popen with explicit cwd/env), one `{"op":"ping"}` is exchanged so that the
-process is quiescent (main thread blocked in read(0), worker thread parked), and then TWO strace instances are
-attached:
+The harness is started *untraced* (Popen with explicit cwd/env), one `{"op":"ping"}` (plus the optional `warmup`
+ops) is exchanged so that the process is quiescent (main thread blocked in read(0), worker thread parked), and
+then TWO strace instances are attached:
 
-  * a "shield" `strace -p <main tid>` (no -f, `-e trace=none`, output discarded): its only purpose is to own the
-    main thread, so that the second strace can not attach to it.  The main thread only does protocol I/O
-    (`read(0)`, `write(1)`); if it were traced by the injecting strace, `inject=read:when=1` would hit the
-    read of the op line instead of the first file read of the operation (strace counts `when=` per tracee and
-    per syscall, and applies the expression to every tracee).
-  * the real tracer `strace -f -y -xx -s 4000000 -o <log> -e trace=<set> [-e inject=...] [-P path] -p <worker tid>`
-    which (because of -f) attaches to every thread of the process except the shielded main thread and follows
-    threads created later.
+  * a "shield" `strace -e trace=none -o /dev/null -p <main tid> [-p ...]` (no -f): its only purpose is to own
+    threads, so that the second strace can not attach to them.  The main thread only does protocol I/O
+    (`read(0)`, `write(1)`); if it were traced by the injecting strace, `inject=read:when=1` would hit the read
+    of the op line instead of the first file read of the operation (strace counts `when=` per tracee and per
+    syscall, and applies the inject expression to every tracee).  With `only=<role>` every thread except the
+    named one is shielded (roles = thread names: cch-worker, blocking-1 (async-std), tokio-rt-worker, async-io..).
+  * the real tracer `strace -f -y -xx -s 4000000 -o <log> -e trace=<set> [-e inject=...] [-P path] -p <tid>`
+    which (because of -f) attaches to every not shielded thread of the process and follows threads created later.
 
 Attaching after start-up also means that every per-thread syscall counter of strace starts at zero at a well
 defined program point (no dynamic-loader noise), which is what makes `when=N` reproducible between runs.
 
 Ops are delimited by log *offsets*: strace's -o stream is line buffered and a tracee is only resumed after its
 line was written, so when the answer of op i has been received every call issued synchronously by op i is in
-the file.  span i = calls whose first log line starts in [size at send i, size at send i+1).
+the file.  span i = calls whose first log line starts in [size at send i, size at send i+1).  The protocol I/O
+of the main thread is never in the log (shielded).
 
-Injection targeting
--------------------
+Injection targeting (sweeps)
+----------------------------
 `thread_ord` of a Call = 1-based ordinal among *all* logged calls of the same syscall name by the same tid
 (counted over everything strace logged, also the calls that are not reported as Calls) = strace's `when=` counter.
-Two targeting modes are used by the sweeps:
 
-  plain   `-e inject=NAME:...:when=<thread_ord>`; verified afterwards through the complete log (see _verify).
-  pinned  additionally `-P <absolute path of the target file>`: strace then only traces (and only counts!) calls that
-          name exactly this path, so the ordinal is "n-th NAME on this path by this thread" and is immune to
-          unrelated calls of the same name by the same thread (async-std's blocking thread writes to an eventfd
-          between file writes, a racy number of times).  Only possible when the path has no random temp
-          component.  The log of a pinned run only contains calls on that path.
+  isolation  the injecting strace is attached to the single thread that issued the call in the fault-free run
+             (if that thread existed at attach time; the sweeps run a read-only warm-up look-up first so that the
+             async runtimes have created their threads), every other thread is shielded: no other thread can be hit.
+  plain      `-e inject=NAME:...:when=<thread_ord>`.
+  pinned     additionally `-P <absolute path of the target file>`: strace then only traces (and only counts!) calls
+             that name exactly this path, so the ordinal is "n-th NAME on this path by this thread" and is immune
+             to unrelated calls of the same name by the same thread (async-std's blocking thread writes to an
+             eventfd between file writes, a racy number of times).  Only possible when the path has no random temp
+             component.  The log of a pinned run only contains calls on that path.
+Attempts alternate plain / pinned; after a failed plain attempt the ordinal is re-estimated from the failed run's
+log (_adapt).  Every injected run is verified from its log (_verify) before it is reported "ok".
 """
-import json, os, re, select as _select, shutil, signal, subprocess, tempfile, threading, time
+import bisect, json, os, re, select as _select, shutil, signal, subprocess, tempfile, time
 from concurrent.futures import ThreadPoolExecutor
 
 IMPL = os.environ.get("VERIF_IMPL_DIR", "/verif/.build")
@@ -672,6 +684,13 @@ def trace_ops(flavour, cache, ext, ops, env=None, timeout=120, link_to=False, wa
     shield = tracer = None
     results, starts = [], []
     timed_out = failed = False
+    sts = {}
+    def abort():
+        # a killed tracee can only be reaped once its tracer has seen the death: a tracer that is busy (delay
+        # injection) or stuck would block us, so the straces are killed too
+        _kill_tree(h.p)
+        for st in sts.values():
+            _kill_tree(st)
     try:
         # quiesce: after the answer to a ping the worker exists and is parked, main goes back to read(0)
         if not h.send({"op": "ping"}) or (h.recv(deadline) or {}).get("r") != "ok":
@@ -702,6 +721,7 @@ def trace_ops(flavour, cache, ext, ops, env=None, timeout=120, link_to=False, wa
         with open(serr, "wb") as ef:
             shield = subprocess.Popen(sargv, stdin=subprocess.DEVNULL, stdout=subprocess.DEVNULL, stderr=ef,
                                       start_new_session=True)
+        sts["shield"] = shield
         _wait_attach(shield, serr, pid, shielded, deadline, nmsg=len(shielded))
         terr = os.path.join(ld, "strace.err")
         argv = [STRACE, "-f", "-y", "-xx", "-s", str(STRSIZE), "-o", log,
@@ -714,6 +734,7 @@ def trace_ops(flavour, cache, ext, ops, env=None, timeout=120, link_to=False, wa
         with open(terr, "wb") as ef:
             tracer = subprocess.Popen(argv, stdin=subprocess.DEVNULL, stdout=subprocess.DEVNULL, stderr=ef,
                                       start_new_session=True)
+        sts["tracer"] = tracer
         _wait_attach(tracer, terr, pid, others, deadline)
         dead = False
         for op in ops:
@@ -729,7 +750,7 @@ def trace_ops(flavour, cache, ext, ops, env=None, timeout=120, link_to=False, wa
             except TimeoutError:
                 timed_out = True
                 results.append(None); dead = True
-                _kill_tree(h.p)
+                abort()
                 continue
             results.append(r)
             if r is None or r.get("r") == "hang":
@@ -745,16 +766,16 @@ def trace_ops(flavour, cache, ext, ops, env=None, timeout=120, link_to=False, wa
             h.p.wait(timeout=max(1.0, min(30.0, deadline - time.time())))
         except subprocess.TimeoutExpired:
             timed_out = True
-            _kill_tree(h.p)
+            abort()
             h.p.wait()
     except BaseException:
-        _kill_tree(h.p)
+        abort()
         h.p.wait()
         failed = True
         raise
     finally:
         if h.p.poll() is None:
-            _kill_tree(h.p)
+            abort()
             h.p.wait()
         for s in (tracer, shield):
             if s is None:
@@ -780,7 +801,6 @@ def trace_ops(flavour, cache, ext, ops, env=None, timeout=120, link_to=False, wa
     # spans from log offsets: op i owns the calls whose first line starts in [start_i, start_{i+1})
     spans = []
     offs = [c["line"] for c in calls]
-    import bisect
     for i, s in enumerate(starts):
         if s is None:
             spans.append((len(calls), len(calls)))
@@ -982,7 +1002,6 @@ def _adapt(base, target, C, run, n):
 
 class _Dirs:
     """scratch directory pair for one run"""
-    _lock = threading.Lock()
     def __init__(self, tag):
         os.makedirs(SCRATCH, exist_ok=True)
         self.root = tempfile.mkdtemp(prefix="run-%s-" % tag, dir=SCRATCH)
